@@ -1,5 +1,6 @@
 import P2.Drv.Parse
 import P2.Drv.Util
+import P2.Model.BatchFri
 /- C05 requests: the FRI verifier's verdict (with stage) on dumped instances/proofs/challenges,
 the arity schedule of each reduction strategy, `compute_evaluation`. -/
 namespace P2.Drv.C05
@@ -19,9 +20,22 @@ def pVerify : Parser Verdict := do
   let proof ← pFriProof
   pure (verify inst op ch caps proof p)
 
+/-- `c05 bverify`: the dump written by `harness/src/c05b.rs::BCase::request`:
+params, instances, openings (one `FriOpenings` per instance), challenges, degree bits, initial caps, proof -/
+def pBVerify : Parser Verdict := do
+  let p ← pFriParams
+  let insts ← list pInstance
+  let ops ← list pOpenings
+  let ch ← pChallenges
+  let degreeBits ← list nat
+  let caps ← list pCap
+  let proof ← pFriProof
+  pure (BatchFri.verifyBatch insts ops ch degreeBits caps proof p)
+
 def handle (op : String) (a : List Nat) : Option String :=
   match op, a with
   | "verify", toks => some ((Parser.runAll pVerify toks).map showVerdict |>.getD "PARSE-ERROR")
+  | "bverify", toks => some ((Parser.runAll pBVerify toks).map showVerdict |>.getD "PARSE-ERROR")
   | "constarity", [ab, f, degreeBits, rateBits, capHeight] =>
     some (match constantArityBits ab f rateBits capHeight (degreeBits + 2) degreeBits with
       | none => "PANIC"
